@@ -323,6 +323,48 @@ func scriptCallsWrittenAfterTheirDefinition(c *Ctx, rule string) {
 						before = true
 					}
 				}
+				// a helper that writes the call for a caller that has emitted the definition (Render: RenderScriptItems(…); c.writeCall(w))
+				if !before {
+					fobj := info.Defs[fd.Name]
+					ncall, allBefore := 0, true
+					for _, ofd := range allFuncDecls(p) {
+						if ofd.Body == nil || ofd == fd {
+							continue
+						}
+						var odefs []*ast.CallExpr
+						ast.Inspect(ofd.Body, func(y ast.Node) bool {
+							if c2, ok := y.(*ast.CallExpr); ok {
+								if fn := calleeOf(info, c2); fn != nil && fn.Name() == "RenderScriptItems" {
+									odefs = append(odefs, c2)
+								}
+							}
+							return true
+						})
+						ast.Inspect(ofd.Body, func(y ast.Node) bool {
+							c2, ok := y.(*ast.CallExpr)
+							if !ok {
+								return true
+							}
+							if fn := calleeOf(info, c2); fn == nil || types.Object(fn) != fobj {
+								return true
+							}
+							ncall++
+							ok2 := false
+							for _, d := range odefs {
+								if d.Pos() < c2.Pos() {
+									ok2 = true
+								}
+							}
+							if !ok2 {
+								allBefore = false
+							}
+							return true
+						})
+					}
+					if ncall > 0 && allBefore && !fd.Name.IsExported() {
+						before = true
+					}
+				}
 				key := fmt.Sprintf("%s|read:%s#%d|definition-emitted-first", funcKey(p, fd), se.Sel.Name, k)
 				c.check(before, rule, key, c.pos(se.Pos()), "the function has handed the script to RenderScriptItems before it uses its "+se.Sel.Name,
 					fmt.Sprintf("%s uses %s — the text of a call of a script template's function — without having handed the script to RenderScriptItems: the call is written into the document while the function's definition is emitted nowhere (the use does not get its definition at or before it)", fd.Name.Name, types.ExprString(se)))
